@@ -10,6 +10,7 @@ import (
 
 	"verif/tools/internal/core"
 	"verif/tools/internal/ssax"
+	"verif/tools/internal/tables"
 )
 
 func (a *Analysis) site(rule string, fn *ssa.Function, pos token.Pos, expr, status, why string) {
@@ -768,6 +769,20 @@ func (a *Analysis) checkCall(fn *ssa.Function, c *ssa.Call) {
 		}
 		s := a.srcOf[n]
 		if s == nil {
+			// an entry of a constant table: every value of that column must be letter-free
+			if col, ok := tables.ColumnValues(a.P, n); ok && len(col) > 0 {
+				for _, cv := range col {
+					switch x := cv.(type) {
+					case int64:
+						if x >= 0 && x < 256 && isLetter(int(x)) {
+							return false, fmt.Sprintf("the needle is an entry of a constant table that holds the letter %q and the haystack is not case-folded", byte(x))
+						}
+					default:
+						return false, "needle from a constant table with non-byte entries (undecided)"
+					}
+				}
+				return true, "entry of a constant table without letters"
+			}
 			return false, "needle byte of unknown origin (undecided)"
 		}
 		l := a.imageLetters(n, s, c.Block())
